@@ -38,7 +38,7 @@ theorem subVotes_keys {Q : Issue × Bytes → Prop} (i : Issue) (amt : Nat) :
     unfold subVotes at h
     split at h
     · exact absurd h (by simp)
-    · apply subVotes_keys i amt cs _ t' h
+    · apply subVotes_keys (Q := Q) i amt cs _ t' h
       · intro e he
         rcases mem_set he with rfl | he
         · exact hc c List.mem_cons_self
@@ -51,7 +51,7 @@ theorem addVotes_keys {Q : Issue × Bytes → Prop} (i : Issue) (amt : Nat) :
   | [], t, ht, _ => by simpa [addVotes] using ht
   | c :: cs, t, ht, hc => by
     unfold addVotes
-    apply addVotes_keys i amt cs
+    apply addVotes_keys (Q := Q) i amt cs
     · intro e he
       rcases mem_set he with rfl | he
       · exact hc c List.mem_cons_self
@@ -167,31 +167,43 @@ theorem invCand_step {s : St} {o : Op} (hi : InvCand s) : InvCand (step s o).2 :
     | endBlock => simp only [step, Prod.mk.injEq, true_and] at hr; subst hr; exact hi.of_same rfl rfl
     | restart => simp only [step, Prod.mk.injEq, true_and] at hr; subst hr; exact hi.of_same rfl rfl
 
+theorem mem_entriesOf {t : AMap (Issue × Bytes) Nat} {i : Issue} {e : Entry} (h : e ∈ entriesOf t i) :
+    ((i, e.1), e.2) ∈ t := by
+  unfold entriesOf at h
+  obtain ⟨x, hx, rfl⟩ := List.mem_map.mp h
+  have hx' := List.mem_filter.mp hx
+  have : x.1.1 = i := by simpa using hx'.2
+  have e' : ((i, x.1.2), x.2) = x := by rw [← this]
+  rw [e']; exact hx'.1
+
+theorem entriesOf_nodup (i : Issue) : ∀ (t : AMap (Issue × Bytes) Nat), t.keys.Nodup → ((entriesOf t i).map (·.1)).Nodup
+  | [], _ => by simp [entriesOf]
+  | e :: r, hn => by
+    have hn' : (AMap.keys r).Nodup ∧ e.1 ∉ AMap.keys r := by
+      simp only [AMap.keys, List.map_cons, List.nodup_cons] at hn; exact ⟨hn.2, hn.1⟩
+    have ih := entriesOf_nodup i r hn'.1
+    by_cases hi : e.1.1 = i
+    · have : entriesOf (e :: r) i = (e.1.2, e.2) :: entriesOf r i := by
+        unfold entriesOf; rw [List.filter_cons_of_pos (by simp [hi])]; rfl
+      rw [this]
+      simp only [List.map_cons, List.nodup_cons]
+      refine ⟨?_, ih⟩
+      intro hm
+      obtain ⟨x, hx, hxe⟩ := List.mem_map.mp hm
+      have := mem_entriesOf hx
+      apply hn'.2
+      have hk : e.1 = (i, x.1) := by rw [← hi, hxe]
+      rw [hk]
+      exact List.mem_map.mpr ⟨((i, x.1), x.2), this, rfl⟩
+    · have : entriesOf (e :: r) i = entriesOf r i := by
+        unfold entriesOf; rw [List.filter_cons_of_neg (by simp [hi])]
+      rw [this]; exact ih
+
 /-- The entries of the block-producer ranking are in the class on which `Less` is a strict total order, and
 their candidates are pairwise different. -/
 theorem bp_entries {s : St} (hi : InvCand s) (hn : s.tally.keys.Nodup) :
     (∀ e ∈ entriesOf s.tally .bp, Is39 e) ∧ ((entriesOf s.tally .bp).map (·.1)).Nodup := by
-  refine ⟨fun e he => ?_, ?_⟩
-  · unfold entriesOf at he
-    obtain ⟨x, hx, rfl⟩ := List.mem_map.mp he
-    have hx' := List.mem_filter.mp hx
-    exact hi.tally x hx'.1 (by simpa using hx'.2)
-  · unfold entriesOf
-    rw [List.map_map]
-    have : (List.map ((fun (x : Entry) => x.1) ∘ fun (e : (Issue × Bytes) × Nat) => (e.1.2, e.2))
-        (List.filter (fun e => decide (e.1.1 = Issue.bp)) s.tally))
-        = List.map (fun k : Issue × Bytes => k.2) ((List.filter (fun e => decide (e.1.1 = Issue.bp)) s.tally).map (·.1)) := by
-      rw [List.map_map]; rfl
-    rw [this]
-    have hsub : ((List.filter (fun e => decide (e.1.1 = Issue.bp)) s.tally).map (·.1)).Nodup := by
-      have : (s.tally.map (·.1)).Nodup := hn
-      exact (List.Sublist.map _ List.filter_sublist).nodup this
-    apply List.Nodup.map_on _ hsub
-    intro k1 hk1 k2 hk2 heq
-    obtain ⟨x1, hx1, rfl⟩ := List.mem_map.mp hk1
-    obtain ⟨x2, hx2, rfl⟩ := List.mem_map.mp hk2
-    have e1 : x1.1.1 = .bp := by simpa using (List.mem_filter.mp hx1).2
-    have e2 : x2.1.1 = .bp := by simpa using (List.mem_filter.mp hx2).2
-    exact Prod.ext (e1.trans e2.symm) heq
+  refine ⟨fun e he => ?_, entriesOf_nodup .bp s.tally hn⟩
+  exact hi.tally _ (mem_entriesOf he) rfl
 
 end Aergo.Gov
